@@ -147,6 +147,10 @@ pub struct RunCfg {
     pub kind: Kind,
     pub len: usize,
     pub start: usize,
+    /// explicit end of the range for range kinds (C16: extreme, empty and inverted ranges);
+    /// None = start + len
+    #[serde(default)]
+    pub range_end: Option<usize>,
     pub hint: Hint,
     pub heap_bytes: usize,
     /// operations executed by the main thread before the threads start (sequential prefix)
@@ -284,6 +288,10 @@ pub fn install_panic_hook() {
             .location()
             .map(|l| format!("{}:{}", l.file(), l.line()))
             .unwrap_or_default();
+        if sim::tid().is_none() && !sim::run_active() {
+            // a panic of the harness itself (not inside a simulated run): never swallow it
+            eprintln!("harness panic: {msg} @ {loc}");
+        }
         LAST_PANIC
             .lock()
             .unwrap_or_else(|e| e.into_inner())
@@ -417,7 +425,7 @@ fn consume_chunk<T: Obs, I: ExactSizeIterator<Item = T>>(
 ) -> Res {
     let announced = values.len();
     // an impossible announcement: do not iterate garbage
-    let limit = requested.max(1).min(ctx.len.max(1) + 64);
+    let limit = requested.max(1).min(ctx.len.max(1).saturating_add(64));
     if announced > limit {
         std::mem::forget(values);
         return Res::Chunk {
@@ -433,6 +441,9 @@ fn consume_chunk<T: Obs, I: ExactSizeIterator<Item = T>>(
     let mut lens = Vec::new();
     let mut exhausted = false;
     let mut guard = 0usize;
+    // the harness never consumes more than a few thousand elements of one chunk (C16: a chunk
+    // of a range may legitimately announce 2^63 elements)
+    let k = k.min(4096);
     loop {
         if items.len() >= k {
             break;
@@ -451,7 +462,7 @@ fn consume_chunk<T: Obs, I: ExactSizeIterator<Item = T>>(
             }
         }
         guard += 1;
-        if guard > limit + 4 {
+        if guard > limit.saturating_add(4) {
             break;
         }
     }
@@ -739,7 +750,7 @@ where
                             }
                         }
                     }
-                    if guard > ctx.len * 3 + 80 {
+                    if guard > ctx.len.saturating_mul(3).saturating_add(80) {
                         break;
                     }
                 }
@@ -890,7 +901,7 @@ where
                                 None => break,
                             }
                             k += 1;
-                            if k > cfg.len + 64 {
+                            if k > cfg.len.saturating_add(64) {
                                 break;
                             }
                         }
@@ -988,7 +999,9 @@ pub fn execute(cfg: &RunCfg, run_no: u32) -> RunRecord {
         Some((PanicSite::WrappedNext, k)) => Some(k),
         _ => None,
     };
-    elems::ledger_reset(n, run_no, clone_panic);
+    // ranges have no elements with identity (and may be astronomically long)
+    let ledger_n = if cfg.kind.is_range() { 0 } else { n };
+    elems::ledger_reset(ledger_n, run_no, clone_panic);
     elems::probe_reset(probe_panic);
     alloc::reset();
     alloc::enable(true);
@@ -1058,11 +1071,15 @@ pub fn execute(cfg: &RunCfg, run_no: u32) -> RunRecord {
             }
             with_array!(n, mk, body, cfg)
         }
-        Kind::Range => drive(cfg, IntoConcurrentIter::into_con_iter(cfg.start..cfg.start + n)),
+        Kind::Range => {
+            let end = cfg.range_end.unwrap_or(cfg.start.wrapping_add(n));
+            drive(cfg, IntoConcurrentIter::into_con_iter(cfg.start..end))
+        }
         Kind::RangeRef => {
-            let r = cfg.start..cfg.start + n;
+            let end = cfg.range_end.unwrap_or(cfg.start.wrapping_add(n));
+            let r = cfg.start..end;
             let o = drive(cfg, r.con_iter());
-            rec.source_intact = r == (cfg.start..cfg.start + n);
+            rec.source_intact = r == (cfg.start..end);
             o
         }
         Kind::IterOwned => {
